@@ -1014,7 +1014,8 @@ Proof.
   pose proof (share_general coins total s Hc Ht ltac:(lia)) as [P0 P1]. cbv zeta in P1.
   set (p := share_reward coins total s) in *.
   unfold kf_C19_1 in Hk. assert (Hk' : total <= coins * 400000 * P18) by lia.
-  unfold holds_C19_share. apply andb_true_intro. split; [lia|]. apply Z.leb_le.
+  unfold holds_C19_share. apply andb_true_intro. split; [lia|].
+  destruct (Z.leb_spec total 0); [lia|]. apply Z.leb_le.
   pose proof share_num_fact as NF.
   (* bracket <= s * coins * P18 * (P18 + 600000) *)
   assert (B1 : s * total <= s * (coins * 400000 * P18)) by (apply Z.mul_le_mono_nonneg_l; lia).
@@ -1062,22 +1063,47 @@ Proof.
     intros f Hf. apply filter_In in Hf. tauto.
 Qed.
 
+(* a non-empty result means somebody has an eligible value *)
+Lemma farm_calc_total e coins ps : farm_calc e coins = Ok ps -> ps <> [] -> zsum (map snd (eligible e)) <> 0.
+Proof.
+  intros E Hne. destruct e as [|fs|fs child]; cbn [farm_calc eligible] in *; [discriminate| |].
+  - destruct (Z.eqb_spec (zsum (map snd fs)) 0); [injection E as <-; contradiction|assumption].
+  - set (ms := combine (map fst fs) (min_supplies (map snd fs) child)) in *.
+    destruct (Z.eqb_spec (zsum (map snd ms)) 0); [injection E as <-; contradiction|assumption].
+Qed.
+
+(* a farmer without eligible value is paid nothing *)
+Lemma share_reward_zero coins total : 0 <= coins -> 0 < total -> share_reward coins total 0 = 0.
+Proof.
+  intros Hc Ht. pose proof (share_general coins total 0 Hc Ht ltac:(lia)) as [P0 P1]. cbv zeta in P1.
+  set (p := share_reward coins total 0) in *. dec_consts. pose proof P36_eq as E36. pose proof F_P53_pos.
+  destruct (Z.eq_dec p 0) as [|Hp]; [assumption|exfalso]. assert (1 <= p) by lia.
+  assert (A1 : 1 * (P36 * total * F_P53) <= p * (P36 * total * F_P53)) by (apply Z.mul_le_mono_nonneg_r; nia).
+  assert (A2 : 2 * HALF18 * (total * (F_P53 + 1)) <= P36 * (total * F_P53)).
+  { rewrite E36. assert (F_P53 + 1 <= 2 * F_P53) by lia. assert (2 * HALF18 = P18) by lia.
+    assert (P18 * (total * (F_P53 + 1)) <= P18 * (total * (2 * F_P53))) by (apply Z.mul_le_mono_nonneg_l; nia).
+    assert (P18 * 2 <= P18 * P18) by (apply Z.mul_le_mono_nonneg_l; lia). nia. }
+  nia.
+Qed.
+
 Lemma farm_share_bound e coins ps a r : farm_calc e coins = Ok ps -> In (a, r) ps -> 0 <= coins ->
   Forall (fun f => 0 <= snd f) (eligible e) ->
   let total := zsum (map snd (eligible e)) in
-  exists s, In (a, s) (eligible e) /\
+  0 < total /\
+  exists s, In (a, s) (eligible e) /\ (s = 0 -> r = 0) /\
     (P18 <= s -> kf_C19_1 coins total = false -> holds_C19_share coins total s r = true).
 Proof.
-  intros E Hin Hc Hnn total. destruct (farm_calc_share _ _ _ E _ _ Hin) as (s & Hs & -> & _).
-  exists s. split; [assumption|]. intros Hs1 Hk. fold total.
+  intros E Hin Hc Hnn total.
   assert (Ht : 0 <= total).
   { unfold total. clear -Hnn. induction Hnn as [|f l Hf _ IH]; cbn [map zsum]; lia. }
   assert (Hpos : 0 < total).
-  { assert (s <= total); [|dec_consts; lia]. unfold total. clear -Hnn Hs.
-    induction Hnn as [|f l Hf Hl IH]; [contradiction|]. cbn [map zsum].
-    assert (0 <= zsum (map snd l)) by (clear -Hl; induction Hl; cbn [map zsum]; lia).
-    destruct Hs as [->|Hs]; [cbn [snd]; lia|]. specialize (IH Hs). lia. }
-  apply share_bound; assumption.
+  { pose proof (farm_calc_total _ _ _ E) as Hn. fold total in Hn.
+    assert (ps <> []) by (intros ->; contradiction). specialize (Hn H). lia. }
+  split; [assumption|].
+  destruct (farm_calc_share _ _ _ E _ _ Hin) as (s & Hs & -> & _).
+  exists s. split; [assumption|]. fold total. split.
+  - intros ->. apply share_reward_zero; assumption.
+  - intros Hs1 Hk. apply share_bound; assumption.
 Qed.
 
 Lemma epoch_cap : forall now calc bal g g' bal' paid,
